@@ -18,23 +18,4 @@ broadcast use {vstd::std_specs::hash::group_hash_axioms, axh::axiom_uuid_key_mod
 //@include regions/workingset_type.rs
 //@include regions/task_keys_impl.rs
 // ---- functions these properties depend on that are NOT verified (outside the verifier's reach): hashed; a change -> UNDECIDED
-//@watch C19 :: src/task/task.rs :: impl Task :: fn set_due
-//@watch C19 :: src/task/task.rs :: impl Task :: fn set_uda
-//@watch C19 :: src/task/task.rs :: impl Task :: fn remove_uda
-//@watch C19 :: src/task/task.rs :: impl Task :: fn set_legacy_uda
-//@watch C19 :: src/task/task.rs :: impl Task :: fn remove_legacy_uda
-//@watch C18 :: src/task/task.rs :: impl Task :: fn get_tags
-//@watch C18 :: src/task/task.rs :: impl Task :: fn get_annotations
-//@watch C18 :: src/task/task.rs :: impl Task :: fn get_udas
-//@watch C18 :: src/task/task.rs :: impl Task :: fn get_dependencies
-//@watch C18 :: src/task/task.rs :: impl Task :: fn get_uda
-//@watch C18 :: src/workingset.rs :: impl WorkingSet :: fn iter
-//@watch C18 C19 :: src/task/tag.rs :: impl FromStr for Tag
-//@watch C18 C19 :: src/task/tag.rs :: impl TryFrom<&str> for Tag
-//@watch C18 C19 :: src/task/tag.rs :: impl TryFrom<&String> for Tag
-//@watch C18 C19 :: src/task/tag.rs :: impl Tag
-//@watch C18 C19 :: src/task/tag.rs :: enum SyntheticTag
-//@watch C18 C19 :: src/depmap.rs :: impl DependencyMap
-//@watch C18 C19 :: src/task/task.rs :: fn uda_string_to_tuple
-//@watch C18 C19 :: src/task/task.rs :: fn uda_tuple_to_string
 //@include prelude/tail.rs
